@@ -556,6 +556,31 @@ pub fn normalize(
     let skip = |r: &str| spec.skip_rules.iter().any(|s| s == r);
     let mut text = text0.to_string();
     let mut suffix = String::new();
+    if spec.lock_scope {
+        // N6 side condition (syntactic): one critical section per method
+        let f = parse(&text, "extraction")?;
+        let mut ff = FnFinder { fns: vec![] };
+        ff.visit_file(&f);
+        let Some(fr) = ff.fns.first() else { return Err(Lost("lock-scope: not a function".into())) };
+        let first = fr.block.stmts.first().map(|s| text[range(s.span())].split_whitespace().collect::<Vec<_>>().join(" "));
+        if first.as_deref() != Some("let mut guard = self.0.lock().await;") {
+            return Err(Lost("anchor lost: lock-scope shape — the method no longer begins with `let mut guard = self.0.lock().await;`".into()));
+        }
+        struct AwaitCount(usize);
+        impl<'ast> Visit<'ast> for AwaitCount {
+            fn visit_expr_await(&mut self, a: &'ast syn::ExprAwait) { self.0 += 1; visit::visit_expr_await(self, a); }
+        }
+        let mut ac = AwaitCount(0);
+        ac.visit_block(fr.block);
+        if ac.0 != 1 {
+            return Err(Lost(format!("anchor lost: lock-scope shape — {} `.await` points in a method that must be one critical section", ac.0)));
+        }
+        // the guard must not be dropped or re-assigned early
+        if text.contains("drop(guard)") {
+            return Err(Lost("anchor lost: lock-scope shape — the guard is dropped before the end of the method".into()));
+        }
+        bump(fired, "N6.lock-scope-checked", 1);
+    }
     let mut prefix = String::new();
 
     // N2a
@@ -738,20 +763,24 @@ pub struct Spliced {
 
 struct BodyScan<'ast> {
     guards: usize,
+    for_exprs: Vec<Option<usize>>,            // byte offset of the iterable of a `for` loop (None for while/loop)
     loops: Vec<usize>,                       // byte offset of the body's `{`
     closures: Vec<&'ast syn::ExprClosure>,
     stmts: Vec<std::ops::Range<usize>>,
 }
 impl<'ast> Visit<'ast> for BodyScan<'ast> {
     fn visit_expr_for_loop(&mut self, l: &'ast syn::ExprForLoop) {
+        self.for_exprs.push(Some(range(l.expr.span()).start));
         self.loops.push(range(l.body.brace_token.span.open()).start);
         visit::visit_expr_for_loop(self, l);
     }
     fn visit_expr_while(&mut self, l: &'ast syn::ExprWhile) {
+        self.for_exprs.push(None);
         self.loops.push(range(l.body.brace_token.span.open()).start);
         visit::visit_expr_while(self, l);
     }
     fn visit_expr_loop(&mut self, l: &'ast syn::ExprLoop) {
+        self.for_exprs.push(None);
         self.loops.push(range(l.body.brace_token.span.open()).start);
         visit::visit_expr_loop(self, l);
     }
@@ -790,6 +819,7 @@ pub fn splice(
     cl: Option<&FnClauses>,
     canary: bool,
     base_line: usize,
+    prologue: &str,
 ) -> Result<Spliced, Lost> {
     let f = parse(text, "normalisation")?;
     let mut ff = FnFinder { fns: vec![] };
@@ -807,6 +837,10 @@ pub fn splice(
     if fn_name != fr.sig.ident.to_string() {
         let r = range(fr.sig.ident.span());
         edits.push(Edit { start: r.start, end: r.end, text: fn_name.clone(), rule: "rename" });
+    }
+    if !prologue.trim().is_empty() {
+        let b = range(fr.block.brace_token.span.open()).end;
+        edits.push(Edit { start: b, end: b, text: format!("\n        {}", prologue.trim()), rule: "proof-prologue" });
     }
     if let Some(cl) = cl {
         let ret = cl.ret.clone().unwrap_or_else(|| "r".to_string());
@@ -842,7 +876,7 @@ pub fn splice(
         let b = range(fr.block.brace_token.span.open()).start;
         edits.push(Edit { start: b, end: b, text: c, rule: "clauses" });
 
-        let mut scan = BodyScan { guards: 0, loops: vec![], closures: vec![], stmts: vec![] };
+        let mut scan = BodyScan { guards: 0, for_exprs: vec![], loops: vec![], closures: vec![], stmts: vec![] };
         scan.visit_block(fr.block);
         if scan.guards > 0 && has_mut_ref_param(fr.sig) {
             // measured (notes/spikes/verus_match_guard.rs): Verus 0.2026.09.13 loses `final(p)` of a `&mut` parameter when
@@ -854,6 +888,12 @@ pub fn splice(
                 return Err(Lost(format!("anchor lost: @loop {k} but the function has {} loops", scan.loops.len())));
             };
             edits.push(Edit { start: *pos, end: *pos, text: format!("\n{}        //# end\n        ", indent(t, 8)), rule: "loop-clauses" });
+        }
+        for (k, name) in &cl.loop_iters {
+            let Some(Some(pos)) = scan.for_exprs.get(*k) else {
+                return Err(Lost(format!("anchor lost: @loop_iter {k}: not a `for` loop")));
+            };
+            edits.push(Edit { start: *pos, end: *pos, text: format!("{name}: "), rule: "loop-clauses" });
         }
         for (k, t) in &cl.closures {
             let Some(c) = scan.closures.get(*k) else {
